@@ -53,6 +53,21 @@ func main() {
 		os.Exit(cmdCheck(os.Args[2:]))
 	case "replay":
 		os.Exit(cmdReplay(os.Args[2:]))
+	case "locals":
+		// prints the ordered local-variable lists used for rename detection (contract directive 'locals')
+		p, err := loadAll("")
+		if err != nil {
+			fmt.Fprintln(os.Stderr, err)
+			os.Exit(2)
+		}
+		for _, name := range os.Args[2:] {
+			fn := p.Funcs[normName(strings.SplitN(name, "@", 2)[0])]
+			if fn == nil {
+				fmt.Printf("%s: ?\n", name)
+				continue
+			}
+			fmt.Printf("%s: %s\n", name, strings.Join(orderedLocals(fn), " "))
+		}
 	case "witness":
 		// selftest aid: run the witness search for the given function on the current tree
 		rr := witnessSearchNode(&Obligation{Name: "selftest/" + os.Args[2], Func: os.Args[2]})
